@@ -201,6 +201,9 @@ pub fn check_history(h: &HistoryCase, st: &mut Stats) -> Check {
         }
     }
     st.class("history of 20..160 queries on one long-lived mapper and cache");
+    if st.want_sample() {
+        st.sample(|| json!({"mapping": crate::engine::show_bytes(&bytes[..bytes.len().min(600)]), "history length": h.ops.len(), "first ops (class idx, method idx, line/params idx, kind)": &h.ops[..h.ops.len().min(8)]}));
+    }
     Ok(())
 }
 
@@ -219,6 +222,9 @@ pub fn check_big(case: &MapCase, st: &mut Stats) -> Check {
     let buf = write_cache(&bytes)?;
     let cache = parse_cache(&buf)?;
     st.class("big traces: depth >= 126, >= 350 frames / lines, parameter frames");
+    if st.want_sample() {
+        st.sample(|| json!({"typed traces (depth, frames)": extra.typed.iter().map(|t| (t.depth(), t.frames.len())).collect::<Vec<_>>(), "text lengths": extra.texts.iter().map(|t| t.len()).collect::<Vec<_>>()}));
+    }
     no_panic("query", || crate::transcript::compare_extra(&m_params, &cache, &extra, Kinds { text: true, typed: true, ..Kinds::default() }, case.hash(), st)).map_err(|mut f| {
         f.msg = crate::engine::truncate(&f.msg, 1500);
         f.detail = Value::Null;
